@@ -1,4 +1,177 @@
 import FqModel.Proto
-/-! driver for C11 (stub — replaced by the property's own driver) -/
-open FqModel.Proto
-def main : IO Unit := run (fun _ _ => "BADOP driver-stub")
+import FqModel.Bits
+import FqModel.Query
+/-!
+  driver for C11.  Case lines (harness/cmd/c11/main.go), the observation is one JSON value:
+
+    rt <hexprog>                 [A, A2]
+    ctor <name> <hexP1> <hexP2>  {"in":[A1,A2],"out":V}
+    rw <opts> <hexprog>          {"a":A,"o":OPTS,"r":R,"s":S,"p":RP}
+
+  DIVERGE  = fq's value differs from the model's (FqModel/Query.lean);
+  PROPFAIL = fq's own observation falsifies the property statement: the round trip changes the structure
+             (modulo redundant parentheses), or the program fq really evaluates (RP) does not contain the user's
+             query unchanged in parentheses / has other binders / uses a foreign name / lost its directives.
+-/
+open FqModel FqModel.Proto FqModel.C11 FqModel.C11.JV
+
+def clipStr (s : String) (n : Nat := 400) : String := if s.length > n then (s.take n).toString ++ "…" else s
+
+def hexText (h : String) : Option String := do
+  let bs ← bytesOfHex h
+  String.fromUTF8? (ByteArray.mk bs.toArray)
+
+def finish (law : Option String) (div : Option String) : String :=
+  match law, div with
+  | none, none => "OK"
+  | none, some m => s!"DIVERGE model={clipStr m}"
+  | some why, none => s!"PROPFAIL {why}"
+  | some why, some m => s!"PROPFAIL {why} ;DIVERGE model={clipStr m}"
+
+def first? (cs : List (Bool × String)) : Option String :=
+  match cs.find? (fun c => !c.1) with
+  | some c => some c.2
+  | none => none
+
+def bodyOf (a : JV) : JV := (a.del "meta").del "imports"
+
+/-! ### rt -/
+def stepRT (obs : JV) : String :=
+  match obs with
+  | .arr [a, a2] =>
+    if a2.hasKey "reparse_error" then finish (some "printed-form-does-not-parse") none
+    else
+      let law := if sameStructure a a2 then none else some "round-trip-changes-structure"
+      let m := printParse a
+      finish law (if m == a2 then none else some m.encode)
+  | _ => "BADOP rt-observation"
+
+/-! ### ctor -/
+def ctorModel (name : String) (p1 : String) (a1 a2 : JV) : Option JV :=
+  match name with
+  | "null" => some queryNull
+  | "query" => some (queryQuery a1)
+  | "string" => some (queryString (.str p1))
+  | "ident" => some queryIdent
+  | "is_ident" => some (.bool (queryIsIdent a1))
+  | "func0" => some (queryFunc0 (.str p1))
+  | "func" => some (queryFunc (.str "name") (.arr [a1, a2]))
+  | "func_name" => some (queryFuncName a1)
+  | "func_args" => some (queryFuncArgs a1)
+  | "is_func" => some (.arr [.bool (queryIsFunc a1), .bool (queryIsFuncNamed a1 (.str "repl"))])
+  | "is_string" => some (.arr [.bool (queryIsString a1), queryStringStr a1])
+  | "empty" => some queryEmpty
+  | "pipe" => some (queryPipe a1 a2)
+  | "array" => some (queryArray a1)
+  | "array_null" => some (queryArray .null)
+  | "object" => some (queryObject (JV.mkObj [("slurp", a1), ("orig", a2), ("b", a1)]))
+  | "comma" => some (queryComma a1 a2)
+  | "commas0" => some (queryCommas [])
+  | "commas1" => some (queryCommas [a1])
+  | "commas3" => some (queryCommas [a1, a2, a1])
+  | "iter" => some (queryIter a1)
+  | "try1" => some (queryTry a1 .null)
+  | "try2" => some (queryTry a1 a2)
+  | "pipe_last" => some (pipeLast (fuelOf a1) a1)
+  | "transform_pipe_last" => some (transformPipeLast (fun _ => queryIdent) (fuelOf a1) a1)
+  | "toquery" => some (toquery a1)
+  | "func_rename" => some (queryFuncRename a1 (.str "renamed"))
+  | _ => none
+
+def stepCtor (name p1 : String) (obs : JV) : String :=
+  match obs.get "in" with
+  | .arr [a1, a2] =>
+    match ctorModel name p1 a1 a2 with
+    | some m =>
+      let out := obs.get "out"
+      -- the constructors are the wrapper's only means of building syntax: the parenthesising one must
+      -- parenthesise, pipe/try must keep their operands where they are
+      let law : Option String :=
+        match name with
+        | "query" => if getIn out ["term", "type"] == .str "TermTypeQuery" && getIn out ["term", "query"] == a1 then none else some "query-does-not-parenthesise"
+        | "pipe" => if out.get "op" == .str "|" && out.get "left" == a1 && out.get "right" == a2 then none else some "pipe-operands"
+        | "try2" => if getIn out ["term", "try", "body"] == a1 && getIn out ["term", "try", "catch"] == a2 then none else some "try-body-catch"
+        | "toquery" => if evalLit (fuelOf out + 1) out == some a1 then none else some "toquery-is-not-the-literal-of-its-input"
+        | _ => none
+      finish law (if m == out then none else some m.encode)
+    | none => "BADOP ctor-name"
+  | _ => "BADOP ctor-observation"
+
+/-! ### rw -/
+
+def slurpNames (opts : JV) : List String :=
+  match opts.get "slurps" with
+  | .obj kvs => kvs.filterMap fun kv => match kv.2 with | .str s => some s | _ => none
+  | _ => []
+
+/-- the program fq evaluates is a call of one of the slurp functions on an object literal -/
+def slurpCallArg (opts rp : JV) : Option JV :=
+  match getIn rp ["term", "func", "name"], getIn rp ["term", "func", "args"] with
+  | .str n, .arr [arg] =>
+    if (slurpNames opts).contains n && getIn rp ["term", "type"] == .str "TermTypeFunc" then evalLit (fuelOf arg + 1) arg else none
+  | _, _ => none
+
+def foreignNames (whole : JV) (user : JV) : List String :=
+  (listDiff (funcNames whole) (funcNames user)).filter fun n => !(wrapperNames.contains n)
+
+def stepRW (optsName : String) (obs : JV) : String :=
+  let a := obs.get "a"
+  let opts := obs.get "o"
+  let r := obs.get "r"
+  let rp := obs.get "p"
+  if !(obs.hasKey "a") || !(obs.hasKey "o") then "BADOP rw-observation" else
+  let body := bodyOf a
+  -- correspondence
+  let rm := rewriteBody opts body
+  let div1 := if rm == r then none else some ("r=" ++ rm.encode)
+  let synthetic := optsName.startsWith "x_"
+  let rpm := mergeIdentIndex (reparseWrapper (rewrite opts a))
+  let div2 := if synthetic || rpm == rp then none else some ("p=" ++ rpm.encode)
+  -- the option record is the one the model knows under that name (init.jq / repl.jq shapes)
+  let div0 := match optsOf optsName with
+    | some o => if o == opts then none else some ("opts=" ++ o.encode)
+    | none => if synthetic then none else some "opts=unknown-name"
+  let div := match div0, div1 with | some d, _ => some d | none, some d => some d | none, none => div2
+  -- property, on what fq really evaluates
+  let hasCatch := (opts.get "catch_query").truthy
+  let law : Option String :=
+    if synthetic && !hasCatch then none
+    else if !(obs.get "s" matches .str _) then some "rewrite-raised-an-error"
+    else if rp.hasKey "reparse_error" then some "rewritten-text-does-not-parse"
+    else
+      let directives := rp.get "meta" == a.get "meta" && rp.get "imports" == a.get "imports"
+      match slurpCallArg opts rp with
+      | some arg =>
+        let rewritten := arg.get "rewrite"
+        let want := wrappedQuery opts body
+        first? [(directives, "directives-not-preserved"),
+                (arg.get "orig" == body, "slurp-orig-is-not-the-user-query"),
+                (!hasCatch || occursParenthesised want rewritten, "slurp-rewrite-does-not-keep-the-query"),
+                (binders rp == [], "new-binder-around-slurp-call"),
+                -- the slurp call and its arguments are cut out of the pipeline: binders may vanish with them, none may appear
+                ((listDiff (binders rewritten) (binders body)).isEmpty, "new-binder-in-slurp-rewrite " ++ toString (listDiff (binders rewritten) (binders body))),
+                ((foreignNames rp .null).isEmpty, "foreign-name " ++ toString (foreignNames rp .null)),
+                ((foreignNames rewritten want).isEmpty, "foreign-name-in-slurp-rewrite " ++ toString (foreignNames rewritten want))]
+      | none =>
+        let want := mergeIdentIndex (if !((body.get "term").truthy || (body.get "op").truthy) then body.merge queryIdent else body)
+        first? [(directives, "directives-not-preserved"),
+                (if hasCatch then occursParenthesised want rp else bodyOf rp == mergeIdentIndex body, "user-query-not-kept-in-parentheses"),
+                (binders rp == binders a, "new-binder " ++ toString (listDiff (binders rp) (binders a))),
+                ((foreignNames rp a).isEmpty, "foreign-name " ++ toString (foreignNames rp a))]
+  finish law div
+
+def stepC11 (op obs : String) : String :=
+  match parseJson obs with
+  | none => "BADOP observation-is-not-json"
+  | some o =>
+    if o.hasKey "harness_error" then "BADOP harness-error" else
+    match words op with
+    | ["rt", _] => stepRT o
+    | ["ctor", name, h1, _] =>
+      match hexText h1 with
+      | some p1 => stepCtor name p1 o
+      | none => "BADOP hex"
+    | ["rw", optsName, _] => stepRW optsName o
+    | _ => "BADOP op"
+
+def main : IO Unit := run stepC11
